@@ -483,7 +483,7 @@ func fnNameOfCallee(cc *ssa.CallCommon) string {
 
 func runC13(c *Ctx) {
 	p := c.P
-	pos := func(in ssa.Instruction) string { return p.Pos(in.Pos()) }
+	_ = 0
 
 	// ---------- R1/R2/R6: the three reducers ----------
 	checkReducers(c, []string{"(*File).readAt", "(*File).writeAtConcurrent", "(*File).readFromWithConcurrency"})
@@ -505,119 +505,7 @@ func runC13(c *Ctx) {
 	checkOffsetStores(c, "R7", map[string]bool{"(*File).ReadFrom": true, "(*File).readFromWithConcurrency": true})
 
 	// ---------- R4 sequential loops ----------
-	// every loop, in any method of File, that transfers chunk after chunk through readChunkAt / writeChunkAt (found by
-	// the call in a loop, so that it does not matter which method holds the loop today)
-	type seqSpec struct {
-		fn     string
-		f      *ssa.Function
-		callee string
-	}
-	var seqLoops []seqSpec
-	for _, f := range p.LibFuncs() {
-		if f.Package() != p.Sftp || f.Signature.Recv() == nil || typeName(f.Signature.Recv().Type()) != "File" || f.Name() == "readChunkAt" || f.Name() == "writeChunkAt" {
-			continue
-		}
-		for _, callee := range []string{"readChunkAt", "writeChunkAt"} {
-			inLoopCall := false
-			for _, site := range callsWhere(f, func(cc *ssa.CallCommon) bool { return calleeName(cc) == callee }) {
-				if innermostLoop(loopsOf(f), site.Block()) != nil {
-					inLoopCall = true
-				}
-			}
-			if inLoopCall {
-				seqLoops = append(seqLoops, seqSpec{fnName(f), f, callee})
-			}
-		}
-	}
-	c.check(len(seqLoops) >= 4, "R4", "sequential chunk loops", "?", fmt.Sprintf("%d loops", len(seqLoops)), fmt.Sprintf("only %d sequential chunk loops found (sequential ReadAt, WriteAt, WriteTo, ReadFrom expected)", len(seqLoops)))
-	for _, spec := range seqLoops {
-		fn := spec.f
-		c.looked(spec.fn)
-		for _, site := range callsWhere(fn, func(cc *ssa.CallCommon) bool { return calleeName(cc) == spec.callee }) {
-			l := innermostLoop(loopsOf(fn), site.Block())
-			if l == nil {
-				continue
-			}
-			call := site.(*ssa.Call)
-			var errEx *ssa.Extract
-			for _, r := range *call.Referrers() {
-				if ex, ok := r.(*ssa.Extract); ok && ex.Index == 1 {
-					errEx = ex
-				}
-			}
-			if errEx == nil {
-				c.bad("R4", spec.fn+" examines the chunk error", pos(site), "the error of "+spec.callee+" is discarded: the loop continues after a failed chunk and later chunks are counted")
-				continue
-			}
-			// after the call, on the err != nil edge, the loop head must not be reachable (before a return)
-			reLoops := false
-			tested := false
-			errVals := map[ssa.Value]bool{errEx: true}
-			for changed := true; changed; {
-				changed = false
-				for v := range errVals {
-					for _, r := range *v.Referrers() {
-						if ph, ok := r.(*ssa.Phi); ok && !errVals[ph] {
-							errVals[ph] = true
-							changed = true
-						}
-					}
-				}
-			}
-			for v := range errVals {
-				for _, r := range *v.Referrers() {
-					b, ok := r.(*ssa.BinOp)
-					if !ok || (b.Op != token.NEQ && b.Op != token.EQL) || !isNilConst(b.Y) {
-						continue
-					}
-					// `err != nil` and `switch err { case nil: … }` are the same test
-					errSide := 0
-					if b.Op == token.EQL {
-						errSide = 1
-					}
-					for _, rr := range *b.Referrers() {
-						if iff, ok := rr.(*ssa.If); ok && l.blocks[iff.Block()] {
-							tested = true
-							if reachFromBlock(iff.Block().Succs[errSide], isLoopHeadStart(l), nil) {
-								reLoops = true
-							}
-						}
-					}
-				}
-			}
-			c.check(tested && !reLoops, "R4", spec.fn+" leaves the loop on the first error", pos(site), "err != nil returns", "after a failed chunk the loop can continue: a count beyond the failure is returned or the error of a later chunk wins")
-			// the chunk's own error is examined on every path that goes on or reports success: a test of a variable that
-			// merges it with another error (the source's read error, say) lets a failed write slip through when the
-			// other error is set
-			isOwnTest := func(in ssa.Instruction) bool {
-				switch x := in.(type) {
-				case *ssa.If:
-					if b, ok := x.Cond.(*ssa.BinOp); ok && (b.Op == token.NEQ || b.Op == token.EQL) {
-						return b.X == ssa.Value(errEx) || b.Y == ssa.Value(errEx)
-					}
-				case *ssa.Return:
-					for _, r := range x.Results {
-						if r == ssa.Value(errEx) {
-							return true
-						}
-					}
-				}
-				return false
-			}
-			goesOn := func(in ssa.Instruction) bool {
-				if isLoopHeadStart(l)(in) {
-					return true
-				}
-				if r, ok := in.(*ssa.Return); ok && isReturn(in) && len(r.Results) > 0 {
-					return isNilConst(r.Results[len(r.Results)-1])
-				}
-				return false
-			}
-			slips := reachAvoiding(fn, site, goesOn, isOwnTest)
-			c.check(!slips, "R4", spec.fn+" examines the chunk's own error", pos(site), "tested (or returned) on every path to the next chunk or to a nil result",
-				"the error of "+spec.callee+" is only examined through a variable shared with another error: when that other error is set (a short last read from the source), a failed chunk is ignored and the call reports success")
-		}
-	}
+	checkSequentialLoops(c, "R4")
 
 	// ---------- R5 WriteTo reducer ----------
 	if wt := p.Func("(*File).WriteTo"); wt == nil {
@@ -1737,4 +1625,230 @@ func checkConcurrentCopyOnlyOfRegularFiles(c *Ctx, rule string) {
 	}
 	c.check(onlyViaEdges(wt, edges, isWorker), rule, "WriteTo pipeline only for regular files", p.Pos(wt.Pos()), "every path to the workers takes the regular side of isRegular(mode)",
 		"the concurrent pipeline of WriteTo can be entered for a file that is not regular: a short read of a device, FIFO or /proc-like file is then taken for the end of the file and the copy ends early with a nil error")
+}
+
+// checkSequentialLoops (C13.R4, C01.R18): the loops that transfer chunk after chunk through readChunkAt / writeChunkAt.
+func checkSequentialLoops(c *Ctx, rule string) {
+	p := c.P
+	pos := func(in ssa.Instruction) string { return p.Pos(in.Pos()) }
+	// ---------- R4 sequential loops ----------
+	// every loop, in any method of File, that transfers chunk after chunk through readChunkAt / writeChunkAt (found by
+	// the call in a loop, so that it does not matter which method holds the loop today)
+	type seqSpec struct {
+		fn     string
+		f      *ssa.Function
+		callee string
+	}
+	var seqLoops []seqSpec
+	for _, f := range p.LibFuncs() {
+		if f.Package() != p.Sftp || f.Signature.Recv() == nil || typeName(f.Signature.Recv().Type()) != "File" || f.Name() == "readChunkAt" || f.Name() == "writeChunkAt" {
+			continue
+		}
+		for _, callee := range []string{"readChunkAt", "writeChunkAt"} {
+			inLoopCall := false
+			for _, site := range callsWhere(f, func(cc *ssa.CallCommon) bool { return calleeName(cc) == callee }) {
+				if innermostLoop(loopsOf(f), site.Block()) != nil {
+					inLoopCall = true
+				}
+			}
+			if inLoopCall {
+				seqLoops = append(seqLoops, seqSpec{fnName(f), f, callee})
+			}
+		}
+	}
+	c.check(len(seqLoops) >= 4, rule, "sequential chunk loops", "?", fmt.Sprintf("%d loops", len(seqLoops)), fmt.Sprintf("only %d sequential chunk loops found (sequential ReadAt, WriteAt, WriteTo, ReadFrom expected)", len(seqLoops)))
+	for _, spec := range seqLoops {
+		fn := spec.f
+		c.looked(spec.fn)
+		for _, site := range callsWhere(fn, func(cc *ssa.CallCommon) bool { return calleeName(cc) == spec.callee }) {
+			l := innermostLoop(loopsOf(fn), site.Block())
+			if l == nil {
+				continue
+			}
+			call := site.(*ssa.Call)
+			var errEx *ssa.Extract
+			for _, r := range *call.Referrers() {
+				if ex, ok := r.(*ssa.Extract); ok && ex.Index == 1 {
+					errEx = ex
+				}
+			}
+			if errEx == nil {
+				c.bad(rule, spec.fn+" examines the chunk error", pos(site), "the error of "+spec.callee+" is discarded: the loop continues after a failed chunk and later chunks are counted")
+				continue
+			}
+			// after the call, on the err != nil edge, the loop head must not be reachable (before a return)
+			reLoops := false
+			tested := false
+			errVals := map[ssa.Value]bool{errEx: true}
+			for changed := true; changed; {
+				changed = false
+				for v := range errVals {
+					for _, r := range *v.Referrers() {
+						if ph, ok := r.(*ssa.Phi); ok && !errVals[ph] {
+							errVals[ph] = true
+							changed = true
+						}
+					}
+				}
+			}
+			for v := range errVals {
+				for _, r := range *v.Referrers() {
+					b, ok := r.(*ssa.BinOp)
+					if !ok || (b.Op != token.NEQ && b.Op != token.EQL) || !isNilConst(b.Y) {
+						continue
+					}
+					// `err != nil` and `switch err { case nil: … }` are the same test
+					errSide := 0
+					if b.Op == token.EQL {
+						errSide = 1
+					}
+					for _, rr := range *b.Referrers() {
+						if iff, ok := rr.(*ssa.If); ok && l.blocks[iff.Block()] {
+							tested = true
+							if reachFromBlock(iff.Block().Succs[errSide], isLoopHeadStart(l), nil) {
+								reLoops = true
+							}
+						}
+					}
+				}
+			}
+			c.check(tested && !reLoops, rule, spec.fn+" leaves the loop on the first error", pos(site), "err != nil returns", "after a failed chunk the loop can continue: a count beyond the failure is returned or the error of a later chunk wins")
+			// … and what it leaves with is that error, together with a count that includes what the failing chunk still
+			// moved (n > 0 with an error: the end of the file inside the chunk, a write refused part-way)
+			var nEx *ssa.Extract
+			for _, r := range *call.Referrers() {
+				if ex, ok := r.(*ssa.Extract); ok && ex.Index == 0 {
+					nEx = ex
+				}
+			}
+			mentionsErr := func(v ssa.Value) bool {
+				for _, lf := range leavesOf(v) {
+					if lf.V == ssa.Value(errEx) {
+						return true
+					}
+					if lf.Kind == leafCallResult {
+						for _, a := range lf.Call.Args {
+							for _, l2 := range leavesOfIface(a) {
+								if l2 == ssa.Value(errEx) {
+									return true
+								}
+							}
+						}
+					}
+				}
+				return false
+			}
+			for v := range errVals {
+				for _, nt := range nilTests(v) {
+					if !l.blocks[nt.iff.Block()] {
+						continue
+					}
+					dropped := reachFromNilSide(nt, true, func(in ssa.Instruction) bool {
+						r, ok := in.(*ssa.Return)
+						if !ok || !isReturn(in) || len(r.Results) == 0 {
+							return false
+						}
+						if mentionsErr(r.Results[len(r.Results)-1]) {
+							return false
+						}
+						// the end of the file is not an error of the copy: `if err == io.EOF { return n, nil }`
+						for cv, truth := range edgeConds(r.Block(), nil) {
+							isEOF := func(x ssa.Value) bool {
+								for _, lf := range leavesOf(x) {
+									if lf.Kind == leafGlobal && lf.V.Name() == "EOF" {
+										return true
+									}
+								}
+								return false
+							}
+							switch x := cv.(type) {
+							case *ssa.BinOp:
+								if x.Op == token.EQL && truth && ((errVals[x.X] && isEOF(x.Y)) || (errVals[x.Y] && isEOF(x.X))) {
+									return false
+								}
+								if x.Op == token.NEQ && !truth && ((errVals[x.X] && isEOF(x.Y)) || (errVals[x.Y] && isEOF(x.X))) {
+									return false
+								}
+							case *ssa.Call:
+								if truth && callIs(&x.Call, "errors.Is") && len(x.Call.Args) == 2 && errVals[x.Call.Args[0]] && isEOF(x.Call.Args[1]) {
+									return false
+								}
+							}
+						}
+						return true
+					}, isLoopHeadStart(l))
+					c.check(!dropped, rule, spec.fn+" returns the chunk's error", pos(nt.iff), "the error returned on the failing side is the chunk's",
+						"on the side where "+spec.callee+" failed the function can return without that error (a nil or an unrelated variable): the caller is told the transfer succeeded up to the count returned")
+				}
+			}
+			if nEx != nil {
+				isAdvance := func(in ssa.Instruction) bool {
+					b, ok := in.(*ssa.BinOp)
+					return ok && b.Op == token.ADD && (stripConv(b.X) == ssa.Value(nEx) || stripConv(b.Y) == ssa.Value(nEx))
+				}
+				errReturn := func(in ssa.Instruction) bool {
+					r, ok := in.(*ssa.Return)
+					return ok && isReturn(in) && len(r.Results) > 1 && mentionsErr(r.Results[len(r.Results)-1])
+				}
+				// only the paths on which the chunk moved something (n > 0)
+				noBytes := func(a, b *ssa.BasicBlock, idx int) bool {
+					iff, ok := a.Instrs[len(a.Instrs)-1].(*ssa.If)
+					if !ok {
+						return false
+					}
+					bo, ok := iff.Cond.(*ssa.BinOp)
+					if !ok || stripConv(bo.X) != ssa.Value(nEx) {
+						return false
+					}
+					k, isK := constInt(bo.Y)
+					if !isK || k != 0 {
+						return false
+					}
+					switch bo.Op {
+					case token.GTR, token.NEQ:
+						return idx == 1
+					case token.LEQ, token.EQL:
+						return idx == 0
+					}
+					return false
+				}
+				if len(findInstrs(fn, isAdvance)) > 0 {
+					short := reachCoreX(call.Block(), idxIn(call)+1, errReturn, func(in ssa.Instruction) bool { return isAdvance(in) || isLoopHeadStart(l)(in) }, noBytes)
+					c.check(!short, rule, spec.fn+" counts what the failing chunk moved", pos(site), "the cursor is advanced by n before the error is returned",
+						"the error of a chunk is returned before its byte count is added: the bytes that chunk still moved (the tail of the file read together with EOF) are not counted and are lost to the caller")
+				}
+			}
+			// the chunk's own error is examined on every path that goes on or reports success: a test of a variable that
+			// merges it with another error (the source's read error, say) lets a failed write slip through when the
+			// other error is set
+			isOwnTest := func(in ssa.Instruction) bool {
+				switch x := in.(type) {
+				case *ssa.If:
+					if b, ok := x.Cond.(*ssa.BinOp); ok && (b.Op == token.NEQ || b.Op == token.EQL) {
+						return b.X == ssa.Value(errEx) || b.Y == ssa.Value(errEx)
+					}
+				case *ssa.Return:
+					for _, r := range x.Results {
+						if r == ssa.Value(errEx) {
+							return true
+						}
+					}
+				}
+				return false
+			}
+			goesOn := func(in ssa.Instruction) bool {
+				if isLoopHeadStart(l)(in) {
+					return true
+				}
+				if r, ok := in.(*ssa.Return); ok && isReturn(in) && len(r.Results) > 0 {
+					return isNilConst(r.Results[len(r.Results)-1])
+				}
+				return false
+			}
+			slips := reachAvoiding(fn, site, goesOn, isOwnTest)
+			c.check(!slips, rule, spec.fn+" examines the chunk's own error", pos(site), "tested (or returned) on every path to the next chunk or to a nil result",
+				"the error of "+spec.callee+" is only examined through a variable shared with another error: when that other error is set (a short last read from the source), a failed chunk is ignored and the call reports success")
+		}
+	}
+
 }
